@@ -65,6 +65,7 @@ STATEMENT_STATUS = {
     "C15_safe_name_algebra": "proved (every byte string; replaced set and replacement regenerated from the code)",
     "C15_cmap_probe_exact": "proved (exact probe list <dir>/<name>.pickle.gz in list order; guard comparison translated)",
     "C15_cmap_dirs_absolute": "proved (CMAP_PATH unset: regenerated default and <package>/cmap are absolute, probes independent of the working directory)",
+    "C15_norm_canonical / C15_directly_in_no_dotdot": "proved (normpath of every byte string: canonical components; DirectlyIn an absolute directory = an entry of it)",
     "C15_history": "proved (every history of exports, arbitrary existing files: all named, names and paths distinct, fresh, inside)",
 }
 CLASSIFIERS: Dict[str, Any] = {}
